@@ -476,6 +476,28 @@ def canonical_blocks(tree):
                     and sum(1 for x in fn_names if x.id == st.target.elts[0].id) == 1:
                 st.target = st.target.elts[1]
                 st.iter = st.iter.args[0]
+            # for i in range(len(X)-a, b, -1): v = X[i]; ..   ->   for v in X[::-1][a-1:] (b == -1) / X[::-1][a-1:-(b+1)]: ..     (i read nowhere else)
+            if isinstance(st, ast.For) and isinstance(st.target, ast.Name) and st.body and fn_names is not None and isinstance(st.iter, ast.Call) \
+                    and isinstance(st.iter.func, ast.Name) and st.iter.func.id == 'range' and len(st.iter.args) == 3 and not st.iter.keywords:
+                a0, a1, a2 = st.iter.args
+                f0 = st.body[0]
+                neg1 = isinstance(a2, ast.UnaryOp) and isinstance(a2.op, ast.USub) and isinstance(a2.operand, ast.Constant) and a2.operand.value == 1
+                stop = -a1.operand.value if isinstance(a1, ast.UnaryOp) and isinstance(a1.op, ast.USub) and isinstance(a1.operand, ast.Constant) \
+                    else (a1.value if isinstance(a1, ast.Constant) else None)
+                if neg1 and isinstance(stop, int) and stop >= -1 and isinstance(a0, ast.BinOp) and isinstance(a0.op, ast.Sub) and isinstance(a0.right, ast.Constant) \
+                        and isinstance(a0.right.value, int) and a0.right.value >= 1 and isinstance(a0.left, ast.Call) and isinstance(a0.left.func, ast.Name) \
+                        and a0.left.func.id == 'len' and len(a0.left.args) == 1 and isinstance(a0.left.args[0], ast.Name) \
+                        and isinstance(f0, ast.Assign) and len(f0.targets) == 1 and isinstance(f0.targets[0], ast.Name) and len(st.body) > 1 \
+                        and isinstance(f0.value, ast.Subscript) and isinstance(f0.value.value, ast.Name) and f0.value.value.id == a0.left.args[0].id \
+                        and isinstance(f0.value.slice, ast.Name) and f0.value.slice.id == st.target.id \
+                        and sum(1 for x in fn_names if x.id == st.target.id) == 2:
+                    X = a0.left.args[0].id
+                    lo_ = a0.right.value - 1
+                    txt = '%s[::-1][%s:%s]' % (X, lo_ if lo_ else '', '' if stop == -1 else -(stop + 1))
+                    st.iter = ast.copy_location(ast.parse(txt, mode='eval').body, st.iter)
+                    st.target = f0.targets[0]
+                    st.body = st.body[1:]
+                    ast.fix_missing_locations(st)
             # x = x op e  ->  x op= e      (x a local that only ever holds python numbers: immutable, both forms rebind)
             if isinstance(st, ast.Assign) and len(st.targets) == 1 and isinstance(st.targets[0], ast.Name) and isinstance(st.value, ast.BinOp) \
                     and isinstance(st.value.left, ast.Name) and st.value.left.id == st.targets[0].id and fn_scalars and st.targets[0].id in fn_scalars:
